@@ -183,6 +183,82 @@ def c12(ctx):
                       "distinct by (statement shape, outcome class, postings) resp. by program x content")
 
 
+@check("C11")
+def c11(ctx):
+    import subprocess
+    from .core import goenv, read_ndjson
+    ctx.assumptions += TRUST
+    ctx.assumptions.append("Go race detector for data races proper (gated replays synchronise and therefore hide races from it, hence both)")
+    ctx.build()
+    ctx.tlc_mc("Concurrent", "Concurrent_deep_%s.cfg" % ctx.tier, label="Concurrent.tla, Merge=deep: inputs untouched, no conflicting overlap, results as when run alone; all interleavings")
+    for cfg, inv in (("Concurrent_shallow.cfg", "InputsUntouched"), ("Concurrent_alias.cfg", "InputsUntouched"), ("Concurrent_shallow_race.cfg", "NoRace")):
+        r = ctx.tlc("Concurrent", cfg, workers=4, label="named deviation must violate " + inv)
+        if inv not in " ".join(r["inv_violated"]):
+            raise Infra("Concurrent.tla %s was not refuted (vacuous invariant)" % cfg)
+    scheds = store.gen_lines(ctx, "Concurrent", "Concurrent_gen.cfg", "every interleaving of two runs at gate granularity")
+    sp = os.path.join(ctx.work, "scheds.ndjson")
+    open(sp, "w").write("\n".join(scheds) + "\n")
+    n = 3000 if ctx.tier == "quick" else 20000
+    op = os.path.join(ctx.work, "conc.ndjson")
+    summ = ctx.vh_json(["conc", ctx.seed, n, op, sp])
+    r = ctx.tlc_trace("ConcTrace", "ConcTrace.cfg", op, label="purity / determinism / gated interleavings of real runs")
+    ctx.cov["evaluations"] += summ["runs"]
+    ctx.cov["distinct_nontrivial"] += summ["nontrivial"]
+    ctx.cov["traces_validated_against_impl"] += summ["cases"]
+    ctx.cov["schedules_from_tlc"] = len(scheds)
+    ctx.cov["samples"] += summ["samples"] or []
+    lines = read_ndjson(op)
+    shared = sum(1 for x in lines if x["identity"]["sharedInt"] or x["identity"]["sharedInner"] or x["identity"]["sameOuter"])
+    ctx.cov["merge_constant_observed"] = "deep" if shared == 0 else "alias/shallow in %d of %d cases (hook identity facts; predicts interference)" % (shared, len(lines))
+    if not summ.get("hooks"):
+        ctx.notes.append("hooks absent: gated interleavings degenerate to free-running goroutines")
+    if r["viols"]:
+        by_id = {x["id"]: x for x in lines}
+        seen = set()
+        for v in r["viols"]:
+            if v["what"] in seen or len(ctx.violations) >= 4:
+                continue
+            seen.add(v["what"])
+            # confirm: regenerate the same corpus in a fresh process and judge again
+            op2 = os.path.join(ctx.work, "conc2.ndjson")
+            ctx.vh_json(["conc", ctx.seed, n, op2, sp])
+            r2 = ctx.tlc_trace("ConcTrace", "ConcTrace.cfg", op2, label="confirmation")
+            if any(w["what"] == v["what"] for w in r2["viols"]):
+                x = by_id[v["id"]]
+                ctx.add_violation("C11: %s | script: %s" % (v["what"], x["text"].replace("\n", " ")[:300]),
+                                  dict(kind="conc", property="C11", seed=ctx.seed, n=n, case=x))
+            else:
+                raise Infra("candidate did not reproduce: %s" % v)
+    # free-running goroutines under the race detector
+    exe = ctx.build(race=True)
+    nr = 400 if ctx.tier == "quick" else 4000
+    e = goenv()
+    e["GORACE"] = "halt_on_error=1 exitcode=66"
+    def race_once():
+        return subprocess.run([exe, "conc", str(ctx.seed), str(nr), os.path.join(ctx.work, "race.ndjson"), sp, "free"], cwd=ctx.work, env=e, capture_output=True, text=True, timeout=1800)
+    p = race_once()
+    if p.returncode == 66 or "WARNING: DATA RACE" in p.stderr:
+        p2 = race_once()
+        if p2.returncode == 66 or "WARNING: DATA RACE" in p2.stderr:
+            rep = p2.stderr[:3000]
+            ctx.add_violation("C11: data race between concurrent Run calls sharing one ParseResult / store / variables map\n" + rep[:1500],
+                              dict(kind="race", property="C11", seed=ctx.seed, n=nr, report=rep))
+        else:
+            ctx.notes.append("a race report did not reproduce on a second run; not reported")
+    elif p.returncode != 0:
+        raise Infra("race run failed: %s" % p.stderr[-2000:])
+    else:
+        rs = json.loads([x for x in p.stdout.splitlines() if x.strip()][-1])
+        ctx.cov["race_detector_runs"] = rs["runs"]
+        ctx.cov["evaluations"] += rs["runs"]
+        r3 = ctx.tlc_trace("ConcTrace", "ConcTrace.cfg", os.path.join(ctx.work, "race.ndjson"), label="free-running goroutines: results equal the run executed alone")
+        if r3["viols"]:
+            v = r3["viols"][0]
+            ctx.add_violation("C11 (free-running goroutines): %s" % v["what"], dict(kind="conc", property="C11", seed=ctx.seed, n=nr, free=True))
+    return ctx.finish("model_checking", "one evaluation = one real run; per case: alone, twice on shared store objects, 3 repetitions, flag on/off, two goroutines under "
+                      "2 TLC-chosen interleavings, 8 free goroutines under the race detector; non-trivial = the script produces postings")
+
+
 def replay(path):
     rp = json.load(open(path))
     prop = rp.get("property", "C00")
@@ -208,6 +284,12 @@ def replay(path):
                 return 1
             print("not reproduced")
             return 0
+        if rp["kind"] in ("conc", "race"):
+            print("re-run: VERIF_SEED=%s ./vcheck C11 (the corpus is regenerated from the seed); recorded case:" % rp.get("seed"))
+            print(json.dumps(rp.get("case", rp.get("report")), indent=1)[:3000])
+            os.environ["VERIF_SEED"] = str(rp.get("seed", 1))
+            c = Ctx("C11", "quick", int(rp.get("seed", 1)))
+            return CHECKS["C11"](c)
         if rp["kind"] == "store":
             hits = store.confirm_store(ctx, rp)
             print(json.dumps(rp.get("observed"), indent=1)[:3000])
